@@ -1,25 +1,21 @@
 // UNIT ipfix.message -- nom-derive expansion of ipfix::IPFix (message header, then the sets inside the next
 // length-16 bytes), src/variable_versions/ipfix.rs:53-69.  C02: a message consumes max(length,16) bytes; C05: the set
 // loop gets exactly the bytes inside the message length; C14: fewer bytes than announced => Err BEFORE any set is
-// interpreted, caches untouched.  The set loop itself (many0 over a closure capturing &mut parser) is NOT under
-// contract: it is the body of the map_res closure, replaced by a contracted stub (R5) with uninterpreted semantics.
+// interpreted, caches untouched.  The set loop (the body of the map_res closure) is replaced by a call of
+// vf_ipfix_sets (R5), whose contract stubs/ipfix_sets.rs is discharged by V.ipfix.sets on the closure-converted loop.
 //@ include prelude.rs
 verus! {
-#[verifier::external_body] pub struct FlowSet { _p: () }
+#[verifier::external_body] pub struct FlowSetBody { _p: () }
 #[verifier::external_body] pub struct IPFixParser { _p: () }
-#[verifier::external_body] pub struct VfSetsErr { _p: () }
+//@ type src/variable_versions/ipfix.rs - FlowSet
 //@ type src/variable_versions/ipfix.rs - IPFix
 //@ type src/variable_versions/ipfix.rs - Header
 //@ type src/variable_versions/ipfix.rs - FlowSetHeader
 }
 //@ layout ipfix
+//@ include ipfix_set_spec.rs
 verus! {
-/// semantic function of `many0(complete(|i| FlowSet::parse(i, parser)))(i).map(|(_, sets)| sets)` on the message body
-pub uninterp spec fn ipfix_sets_fn(st: IPFixParser, body: Seq<u8>) -> (Option<Vec<FlowSet>>, IPFixParser);
-#[verifier::external_body]
-fn vf_ipfix_sets<'a>(i: &'a [u8], parser: &mut IPFixParser) -> (r: Result<Vec<FlowSet>, VfSetsErr>)
-    ensures (match r { Ok(v) => Some(v), Err(_) => None }, *final(parser)) == ipfix_sets_fn(*old(parser), i@),
-{ unimplemented!() }
+//@ stub stubs/ipfix_sets.rs
 impl Header {
     // V.ipfix.templates + K.ipfix.header
     #[verifier::external_body]
@@ -34,11 +30,11 @@ pub open spec fn ipfix_message_post<'a>(old_p: IPFixParser, new_p: IPFixParser, 
     } else {
         let h = ipfix_header_dec(b@, 0);
         let l = msg_body_len(h);
-        let (sets, st1) = ipfix_sets_fn(old_p, b@.subrange(14, 14 + l));
+        let (sets, _unread, st1) = sets_spec(old_p, b@.subrange(14, 14 + l));   // the set loop (V.ipfix.sets)
         &&& new_p == st1
-        &&& (sets is None ==> r is Err)
-        &&& (sets is Some ==> r is Ok && r->Ok_0.1.header == h && r->Ok_0.1.flowsets == sets->Some_0
-                && r->Ok_0.0@ == b@.subrange(14 + l, b@.len() as int))       // consumes max(length,16) bytes
+        &&& r is Ok                               // a set that cannot be read is omitted with the rest (C07), never an error
+        &&& r->Ok_0.1.header == h && r->Ok_0.1.flowsets@ =~= sets
+        &&& r->Ok_0.0@ == b@.subrange(14 + l, b@.len() as int)       // consumes max(length,16) bytes
     }
 }
 impl IPFix {
